@@ -42,6 +42,11 @@ Definition cache_key (ignore : list str) (binding : list (str * value)) : value 
 Definition subcache_name (method : str) (version : option str) : str :=
   match version with Some v => method ++ lit "." ++ v | None => method end.
 
+(* the name a method goes by there: its own name, or - when the name is defined more than once in the classes of the
+   object (an overriding method and the one it overrides) - the qualified name <class>.<method> *)
+Definition method_id (cls name : str) (defined_more_than_once : bool) : str :=
+  if defined_more_than_once then cls ++ lit "." ++ name else name.
+
 (* ---- control keywords over a dictionary cache ---- *)
 Record call := { c_args : list value; c_kwargs : list (str * value);
                  c_force : bool; c_only : bool; c_store : option value }.
